@@ -142,7 +142,16 @@ impl Compile {
 
     fn run_on_single_file(&self, source: &PathBuf, destination: &PathBuf) -> Result<()> {
         let grammar = fs::read_to_string(source)?;
-        let source_header = format!("{}\n{}", generate_source_header(&grammar), self.prefix);
+        // The prefix checksum makes sure a changed prefix is never mistaken for an up-to-date file
+        // (e.g. when the new prefix is the beginning of the old one).
+        let prefix_crc =
+            crc::Crc::<u32>::new(&crc::CRC_32_ISO_HDLC).checksum(self.prefix.as_bytes());
+        let source_header = format!(
+            "{}// CRC-32/ISO-HDLC of the prefix: {:08x}\n\n{}",
+            generate_source_header(&grammar),
+            prefix_crc,
+            self.prefix
+        );
         if let Ok(f) = File::open(destination) {
             let mut existing_header = String::new();
             if f.take(source_header.len() as u64)
